@@ -1422,7 +1422,32 @@ def teardown_waits_only_for_vetted_things(ctx, rule):
     R.floor(rule, n, 4, "await points in the connection teardown")
 
 
-def event_loops_suspend_only_where_vetted(ctx, rule):
+CLIENT_LOOPS = {
+    r"^jsonrpsee_core::client::async_client::read_task::\{closure#0\}$": (
+        r"^std::future::poll_fn$",
+        {r"^std::future::poll_fn$": "the select over shutdown / finished forwards / next message / inactivity timer"},
+    ),
+    r"^jsonrpsee_core::client::async_client::send_task::\{closure#0\}$": (
+        r"^std::future::poll_fn$",
+        {
+            r"^std::future::poll_fn$": "the select over shutdown / front-end queue / ping timer",
+            r"async_client::handle_frontend_messages$": "writes one front-end message (its failure ends the task)",
+            r"client::TransportSenderT::send_ping$": "writes a ping (its failure ends the task)",
+        },
+    ),
+}
+
+
+def client_loops_suspend_only_where_vetted(ctx, rule):
+    """the client's read task must keep reading: responses that have arrived complete their calls only if the loop gets back
+    to its select. Inside the loops of read_task / send_task the suspension points are a closed, vetted list - in
+    particular the read task never awaits room in the bounded queue towards the send task (it parks such forwards in
+    `pending_unsubscribes`): with the send task stalled on the transport and the queue full, an inline `send(..).await`
+    stops the reader, and calls whose responses are already on the wire time out."""
+    event_loops_suspend_only_where_vetted(ctx, rule, CLIENT_LOOPS, "it neither reads further messages nor sees the shutdown signal, so calls whose responses have already arrived do not complete")
+
+
+def event_loops_suspend_only_where_vetted(ctx, rule, table=None, consequence=None):
     """the accept loop and the per-connection WebSocket loop are what notices a new connection (and answers 429), a stop
     request, a vanished peer (and so frees the connection's slot). While such a loop is suspended on anything else it does
     none of that, so the places where it may await are a closed, vetted list (like the spawn sites): any other `.await`
@@ -1431,7 +1456,7 @@ def event_loops_suspend_only_where_vetted(ctx, rule):
     F, R = ctx.F, ctx.R
     tr = ctx.tracer(follow_callers=False, follow_fields=False, inline_calls=False)
     n = 0
-    for pat, (anchor, vetted) in EVENT_LOOPS.items():
+    for pat, (anchor, vetted) in (table or EVENT_LOOPS).items():
         b = F.one(pat)
         R.fn(b)
         anchors = b.calls_to(anchor)
@@ -1442,11 +1467,13 @@ def event_loops_suspend_only_where_vetted(ctx, rule):
         for c in b.calls_to(r"IntoFuture>?::into_future$"):
             if c.bb not in loop:
                 continue
+            if not str(c.exp or "").startswith("d:Await"):
+                continue   # a branch future handed to a select!, not an `.await` of this loop
             n += 1
             lv = tr.origins(b, c.args[0])
             names = sorted({(l.detail.get("callee") or "?") if l.kind == "call" else leaf_str(l)[:60] for l in lv})
             ok = bool(names) and all(any(re.search(v, nm) for v in vetted) for nm in names)
-            R.check(ok, rule, "%s:await:%s" % (fkey(b), "+".join(short(x) for x in names)[:80]), "the loop suspends at a vetted point (%s)" % ", ".join(short(x) for x in names), "%s awaits %s inside its loop: that is not one of the vetted suspension points (%s). While the loop waits there it does not accept / refuse new connections, does not see the stop signal and does not notice that the peer is gone, so the connection's slot is not released" % (short(b.path), [short(x) for x in names], ", ".join(short(v.strip("^$")) for v in vetted)), where(c))
+            R.check(ok, rule, "%s:await:%s" % (fkey(b), "+".join(short(x) for x in names)[:80]), "the loop suspends at a vetted point (%s)" % ", ".join(short(x) for x in names), "%s awaits %s inside its loop: that is not one of the vetted suspension points (%s). While the loop waits there %s" % (short(b.path), [short(x) for x in names], ", ".join(short(v.strip("^$")) for v in vetted), consequence or "it does not accept / refuse new connections, does not see the stop signal and does not notice that the peer is gone, so the connection's slot is not released"), where(c))
     R.floor(rule, n, 3, "await points inside the accept / connection loops")
 
 
